@@ -94,12 +94,15 @@ KfTag(k) == IF k \in DOMAIN gh.kf THEN "!" \o gh.kf[k] ELSE ""
 \*      shared slot by hash);  F8b: check_vhash compared the new value hash with the slot of the OTHER key.
 \* F18: a GC pass with merge off treats the current record of a colliding key that does not own the shared slot (and
 \*      is not yet in the collision table) as superseded and drops it.
+\* some other key of k's hash group has been deleted at some time (a tombstone record of it was written)
+SiblingTomb(k) == \E i \in 1..Len(recs) : recs[i].key # k /\ recs[i].key \in Keys /\ HashOf(recs[i].key) = HashOf(k) /\ recs[i].ver < 0
 KfTagR(k, afteropen, aftergc, res) ==
   IF k \in DOMAIN gh.kf THEN "!" \o gh.kf[k]
   \* (F18 is marked by the specification at the step where the pass drops the key's current record: gh.kf above)
   \* (F8a: the victim is not in the collision table and was last written while no key of its group was in it; a key
   \*  written into a DETECTED group joins the table and must be protected by it)
-  ELSE IF Colliding(k) /\ kv[k].ver > 0 /\ afteropen /\ res = "miss" /\ k \notin kvCtab /\ k \in kvUnprot THEN "!F8a"
+  ELSE IF Colliding(k) /\ kv[k].ver > 0 /\ afteropen /\ res = "miss" /\ k \notin kvCtab /\ k \in kvUnprot
+          /\ SiblingTomb(k) THEN "!F8a"       \* (a tombstone of a sibling exists: the replayed delete)
   \* F22: a pass meets records of a key that is NOT in the collision table although its group is: gc.go "guesses" that
   \* every such record is the newest; the first one copied (the oldest) enters the table and the key's later records are
   \* then dropped as superseded
@@ -126,7 +129,8 @@ Checks(o) ==
            num == live /\ o.pre.flag = FlagIncr /\ o.pre.val >= NumBase
            want == IF ~live THEN e.d ELSE IF num THEN o.pre.val - NumBase + e.d ELSE 0
            tag == IF e.k \in DOMAIN gh.kf THEN "!" \o gh.kf[e.k]
-                  ELSE IF live /\ e.res = e.d /\ e.afteropen /\ e.k \notin kvCtab /\ e.k \in kvUnprot THEN "!F8a"
+                  ELSE IF live /\ e.res = e.d /\ e.afteropen /\ e.k \notin kvCtab /\ e.k \in kvUnprot
+                          /\ SiblingTomb(e.k) THEN "!F8a"
                   ELSE IF conf.checkVHash THEN "!F8b" ELSE "" IN
        (IF e.res = want THEN {} ELSE {<<sid, e.n, "C13_Incr" \o tag>>})
   ELSE IF e.a = "GCStart" THEN
